@@ -203,6 +203,11 @@ def as_form(values, form, scalar_ok=False):
         return list(values)
     if form == 'tuple':
         return tuple(values)
+    if form == 'computed':
+        # the result of a NumPy computation (np.cos([0, 0]) for ones, 0 * x for zeros …): a fresh float64 array
+        return np.cos(np.zeros(len(values))) * np.array(values, dtype='float64')
+    if form == 'intarr' and all(v.is_integer() for v in values):
+        return np.array([int(v) for v in values])
     if scalar_ok and len(set(values)) == 1:
         return scalar_form(values[0], form)
     return np.array(values, dtype='float64')
